@@ -41,6 +41,7 @@ def main():
     ap.add_argument('--props', default='')
     ap.add_argument('--keep', action='store_true')
     ap.add_argument('--json', default='')
+    ap.add_argument('--twins', action='store_true', help='run the behaviour-preserving twins instead: every check must stay silent')
     ap.add_argument('--seeded', action='store_true', help='also run the confirmed sub-agent seeds under /verif/seeded')
     a = ap.parse_args()
     import mutants
@@ -48,6 +49,9 @@ def main():
     props = set(x for x in a.props.split(',') if x)
     res = []
     muts = list(mutants.MUTANTS)
+    if a.twins:
+        import twins
+        muts = [dict(t, expect=[], silent=t['props'], props=[]) for t in twins.TWINS]
     if a.seeded:
         sd = os.path.join(VERIF, 'seeded')
         for d in sorted(os.listdir(sd)) if os.path.isdir(sd) else []:
@@ -92,7 +96,7 @@ def main():
                 rc, keys, out = run_check(prop, d)
                 detail.append({'prop': prop, 'rc': rc, 'keys': keys[:6], 'silent_expected': True, 'ok': rc == 0})
                 killed_all = killed_all and rc == 0
-            status = 'killed' if killed_all else 'WEAK'
+            status = ('silent' if killed_all else 'FALSE-ALARM') if a.twins else ('killed' if killed_all else 'WEAK')
             res.append({'id': m['id'], 'what': m['what'], 'status': status, 'detail': detail, 'secs': round(time.time() - t0, 1)})
             print('%s %s  %s  (%.1fs)' % (m['id'], status, m['what'], time.time() - t0))
             if not killed_all:
@@ -106,7 +110,7 @@ def main():
     if a.json:
         with open(a.json, 'w') as fh:
             json.dump(res, fh, indent=1)
-    weak = [r for r in res if r['status'] == 'WEAK']
+    weak = [r for r in res if r['status'] in ('WEAK', 'FALSE-ALARM')]
     print('selftest: %d mutants, %d killed, %d weak, %d skipped' % (len(res), sum(r['status'] == 'killed' for r in res), len(weak), sum(r['status'] == 'skipped' for r in res)))
     return 0
 
